@@ -111,8 +111,10 @@ Theorem C07_check_transfer :
 Proof. exact check_ba_transfer. Qed.
 Print Assumptions C07_check_transfer.
 
-(* end to end: the booleans the check reads off vm_compute imply that msdm's numbers are within the
-   tolerance of the real-valued Bayes quantities *)
+(* end to end: the booleans the check reads off vm_compute imply that msdm's numbers (ed / ev / nag =
+   dictionary posterior, vector posterior, next_agentstate per observation; pd / pv = predictive
+   distributions; rw = belief-MDP reward) are within the tolerance of the real-valued Bayes quantities;
+   within t x y := |x - y| <= t + t*|y| *)
 Theorem C07_checked_outputs_are_bayes :
   forall nS nA nO P Rw ab ini g Obl tol bl a ed ev nag pd pv bn rw c,
   @wfpb Q NumQ (mQ nS nA nO P Rw ab ini g Obl) = true ->
@@ -120,7 +122,22 @@ Theorem C07_checked_outputs_are_bayes :
   (a < nA)%nat -> 0 <= Q2R tol ->
   @check_ba Q NumQ (mQ nS nA nO P Rw ab ini g Obl) tol bl a ed ev nag pd pv bn rw =
     [true; true; true; true; true; true; c; true] ->
-  checked_ok nS nA nO P Rw ab ini g Obl tol bl a ed ev nag pd pv rw.
+  let m := mR nS nA nO P Rw ab ini g Obl in
+  let b := untab (mapQ1 bl) in
+  let t := Q2R tol in
+  (forall o ns, (o < nO)%nat -> (ns < nS)%nat ->
+     (0 < Zm m b a o ->
+        within t (untab (nth o (mapQ2 ev) []) ns) (bayes m b a o ns) /\
+        within t (lookup (nth o (mapQdd ed) []) ns) (bayes m b a o ns) /\
+        within t (untab (nth o (mapQ2 nag) []) ns) (bayes m b a o ns)) /\
+     (Zm m b a o = 0 ->
+        Rabs (untab (nth o (mapQ2 ev) []) ns) <= t /\
+        nth o (mapQdd ed) [] = [] /\
+        Rabs (untab (nth o (mapQ2 nag) []) ns) <= t)) /\
+  (forall o, (o < nO)%nat ->
+     within t (untab (mapQ1 pv) o) (Zm m b a o) /\ within t (lookup (mapQd pd) o) (Zm m b a o)) /\
+  within t (Q2R rw)
+         (sumf nS (fun s => sumf nS (fun ns => b s * MDP.P (base m) s a ns * MDP.Rw (base m) s a ns))).
 Proof. exact main_checked. Qed.
 Print Assumptions C07_checked_outputs_are_bayes.
 
